@@ -64,12 +64,29 @@ func tw[T interface {
 	Idx() int
 	String() string
 }](f func(uint8) (T, error)) func(uint8) (int, string, error) {
-	return func(b uint8) (int, string, error) {
+	return func(b uint8) (idx int, name string, err error) {
+		defer func() {
+			if r := recover(); r != nil {
+				notePanic(fmt.Sprintf("typed enum constructor New(%d): %v", b, r))
+				err = fmt.Errorf("panic: %v", r)
+			}
+		}()
 		v, err := f(b)
 		if err != nil {
 			return 0, "", err
 		}
 		return v.Idx(), v.String(), nil
+	}
+}
+
+// A call of the code under extraction that panics is recorded, the table is still written (without a row for that
+// argument) so that the drivers can be built and the harness can look for the failing input, and the extractor
+// exits with status 3: the tie is reported as broken.
+var panics []string
+
+func notePanic(what string) {
+	if len(panics) < 50 {
+		panics = append(panics, what)
 	}
 }
 
@@ -250,17 +267,30 @@ func main() {
 	w.WriteString("/-- every id in 0..65535 on which any observable differs from the unknown-product default -/\ndef products : List ProductRow := [\n")
 	first := true
 	for id := 0; id < 65536; id++ {
-		p := veproduct.Product(id)
-		mv, inMap := sm[p]
-		if !p.Exists() && p.Model() == "" && p.Type() == 0 && p.String() == "" && p.MaxPanelVoltage() == -1 && p.MaxPanelCurrent() == -1 && !inMap {
+		row := ""
+		func() {
+			defer func() {
+				if r := recover(); r != nil {
+					notePanic(fmt.Sprintf("a Product accessor for id 0x%04X: %v", id, r))
+					row = ""
+				}
+			}()
+			p := veproduct.Product(id)
+			mv, inMap := sm[p]
+			if !p.Exists() && p.Model() == "" && p.Type() == 0 && p.String() == "" && p.MaxPanelVoltage() == -1 && p.MaxPanelCurrent() == -1 && !inMap {
+				return
+			}
+			row = fmt.Sprintf("  ⟨%d, %s, %s, %d, %s, %s, %s, %s, %s⟩", id, b2s(p.Exists()), leanStr(p.Model()), int(p.Type()), leanStr(p.String()),
+				leanInt(p.MaxPanelVoltage()), leanInt(p.MaxPanelCurrent()), b2s(inMap), leanStr(mv))
+		}()
+		if row == "" {
 			continue
 		}
 		if !first {
 			w.WriteString(",\n")
 		}
 		first = false
-		fmt.Fprintf(w, "  ⟨%d, %s, %s, %d, %s, %s, %s, %s, %s⟩", id, b2s(p.Exists()), leanStr(p.Model()), int(p.Type()), leanStr(p.String()),
-			leanInt(p.MaxPanelVoltage()), leanInt(p.MaxPanelCurrent()), b2s(inMap), leanStr(mv))
+		w.WriteString(row)
 	}
 	w.WriteString("\n]\n\n")
 	fmt.Fprintf(w, "def stringMapSize : Nat := %d\n\n", len(sm))
@@ -357,4 +387,12 @@ func main() {
 		emitRegList(w, fam.name, rl)
 	}
 	w.WriteString("end Victron.Gen\n")
+	if len(panics) > 0 {
+		w.Flush()
+		f.Close()
+		for _, p := range panics {
+			fmt.Fprintln(os.Stderr, "extract: the code under extraction panicked in", p)
+		}
+		os.Exit(3)
+	}
 }
